@@ -27,7 +27,7 @@ def check(prop, tier, seed, replay=None):
     rep = C.Report(prop, tier, seed); audit = C.proof_audit(prop); rnd = random.Random(seed)
     thorough = tier == 'thorough'
     # the last configuration enables assertions and the library's _MDSPAN_DEBUG precondition checks: valid inputs must not trip them
-    configs = (['gcc20-ubsan'] if not thorough else ['gcc20-ubsan', 'clang20-ubsan', 'gcc17-ubsan']) + ['gcc23-O0-assert-mdspandebug']
+    configs = (['gcc20-ubsan', 'gcc17-ubsan'] if not thorough else ['gcc20-ubsan', 'clang20-ubsan', 'gcc17-ubsan', 'clang17-O0-ndebug-emul']) + ['gcc23-O0-assert-mdspandebug']      # C++17: the hand-written operator!=
     rep.cov['rule'] = ('all 2^r static/dynamic patterns for rank<=3 (static values in every position; rank 4 for two index types) x 8 index types x 3 source element types x 6 construction paths '
                        '(pack/array/span x dynamic-only/all values); 420 ordered pairs of extents types of rank 0-3 plus 43 pairs of rank 4-7 for conversion and comparison; values small, at the top of the types, and (tie only) not representable; '
                        'non-trivial = rank>=1 and all values representable; distinct by op line')
